@@ -213,7 +213,8 @@ def check_instance(x, where):
     except Exception as e:  # noqa
         return {"target": f"{name}.to_json", "inputs": where, "expected": "json.dumps(to_json()) succeeds", "observed": f"{type(e).__name__}: {e}"}
     try:
-        y = deserialize_extraction(json.loads(text))
+        from sharepoint2text.parsing.extractors.data_types import ExtractionInterface
+        y = ExtractionInterface.from_json(json.loads(text))          # the property's public entry point (round 7: was deserialize_extraction)
     except Exception as e:  # noqa
         return {"target": f"{name}.from_json", "inputs": where, "expected": "from_json(json.loads(json.dumps(to_json()))) returns",
                 "observed": f"{type(e).__name__}: {e}"}
@@ -1263,8 +1264,68 @@ def function_differential_scope():
     return None, n
 
 
+def type_registry_scope():
+    """The real _get_type_registry against its specification, on the real data_types module: first call (empty module state),
+    second call (populated state), and from every other reachable state of the module invariant (emptied again)."""
+    import importlib
+    S = importlib.import_module("sharepoint2text.parsing.extractors.serialization")
+    D = importlib.import_module("sharepoint2text.parsing.extractors.data_types")
+    want = {n: getattr(D, n) for n in dir(D) if isinstance(getattr(D, n), type) and dataclasses.is_dataclass(getattr(D, n))}
+    state = [v for k, v in vars(S).items() if isinstance(v, dict) and not k.startswith("__") and k.isupper() or (isinstance(v, dict) and "REGISTRY" in k.upper())]
+    n = 0
+
+    def diff(got, label):
+        if not isinstance(got, dict):
+            return {"target": "serialization._get_type_registry", "inputs": {"call": label}, "expected": f"mapping of {len(want)} dataclass classes",
+                    "observed": f"{type(got).__name__}"}
+        missing, extra = sorted(set(want) - set(got)), sorted(set(got) - set(want))
+        wrong = sorted(k for k in set(want) & set(got) if got[k] is not want[k])
+        if missing or extra or wrong:
+            return {"target": "serialization._get_type_registry", "inputs": {"call": label},
+                    "expected": f"exactly the {len(want)} names n of dir(data_types) whose attribute is a dataclass class, each mapped to that class",
+                    "observed": f"missing {missing[:5]} ({len(missing)}), not registered classes {extra[:5]} ({len(extra)}), wrong object {wrong[:5]} ({len(wrong)})"}
+        return None
+    for rnd in range(2):
+        for d in state:
+            d.clear()
+        for label in ("first call on empty module state", "second call"):
+            n += 1
+            try:
+                got = S._get_type_registry()
+            except Exception as e:  # noqa
+                return {"target": "serialization._get_type_registry", "inputs": {"call": label}, "expected": "returns", "observed": f"{type(e).__name__}: {e}"}, n
+            r = diff(got, label)
+            if r:
+                return r, n
+            # round trip through the decoder's use of it: every registered name decodes to its class
+        n += 1
+    return None, n
+
+
+def cli_parser_scope():
+    """The real parser of cli._build_parser: the namespace attributes main reads, for every subset of the three switches."""
+    from sharepoint2text import cli
+    import contextlib
+    n = 0
+    combos = [(), ("--json",), ("--json-unit",), ("--binary",), ("--json", "--binary"), ("--json-unit", "--binary")]
+    for combo in combos:
+        n += 1
+        argv = ["some.txt", *combo]
+        try:
+            with contextlib.redirect_stderr(io.StringIO()):
+                ns, unknown = cli._build_parser().parse_known_args(argv)
+            got = {"json": getattr(ns, "json", "<missing>"), "json_unit": getattr(ns, "json_unit", "<missing>"), "binary": getattr(ns, "binary", "<missing>")}
+        except BaseException as e:  # noqa  (argparse exits)
+            return {"target": "cli._build_parser", "inputs": {"argv": argv}, "expected": "parses", "observed": f"{type(e).__name__}: {e}"}, n
+        want = {"json": "--json" in combo, "json_unit": "--json-unit" in combo, "binary": "--binary" in combo}
+        if got != want or unknown:
+            return {"target": "cli._build_parser", "inputs": {"argv": argv}, "expected": f"namespace {want}, nothing unknown",
+                    "observed": f"namespace {got}, unknown {unknown}"}, n
+    return None, n
+
+
 SCOPES = ("metadata-paths", "xls-workbook-rows", "marker-slots", "function-differential", "type-directed-roundtrip", "base64-helpers-boundary-sizes", "post-init-idempotent", "ods-cell-kinds", "xlsx-cell-kinds", "xlsx-cell-positions", "xls-cell-kinds",
-          "cli-stdout-json", "cli-payload-shapes", "fixture-documents")
+          "cli-stdout-json", "cli-payload-shapes", "fixture-documents", "type-registry-reflective", "cli-parser-switches")
 
 
 def run_scope(name):
@@ -1311,6 +1372,12 @@ def run_scope(name):
         return r, f"{n} cli.main runs on a strict UTF-8 stdout: ASCII / non-BMP / control-character text, a file name that is not UTF-8, a two-member tar; --json, --json --binary, --json-unit"
     if name == "cli-payload-shapes":
         return cli_shapes(), "0, 1, 2 results x binary on/off"
+    if name == "type-registry-reflective":
+        r, n = type_registry_scope()
+        return r, f"{n} calls of the real _get_type_registry on the real data_types module: empty and populated module state, twice"
+    if name == "cli-parser-switches":
+        r, n = cli_parser_scope()
+        return r, f"{n} argument vectors through the real parser: every admissible subset of --json / --json-unit / --binary"
     if name == "fixture-documents":
         r, n = fixtures_scope()
         return r, f"results and units of {n} fixture documents"
@@ -1334,11 +1401,14 @@ def native_scopes(only=None):
 # obligation (sub)string -> directed scopes that look for a failing input of that construct
 ROUTES = (("native-scope/bounded#", None),
           ("_serialize_for_json", ("function-differential",)), ("serialize_extraction", ("function-differential",)),
+          ("_get_type_registry", ("type-registry-reflective", "type-directed-roundtrip")), ("_get_field_types", ("function-differential", "type-directed-roundtrip")),
+          ("_build_parser", ("cli-parser-switches", "cli-stdout-json")),
+          ("to_json", ("type-directed-roundtrip", "fixture-documents")), ("from_json", ("type-directed-roundtrip", "fixture-documents")),
           ("_deserialize_value", ("function-differential",)), ("_deserialize_dataclass", ("function-differential",)),
           ("deserialize_extraction", ("function-differential",)), ("_unwrap_optional", ("function-differential",)),
           ("_bytes_to_base64", ("base64-helpers-boundary-sizes",)), ("_bytesio_to_base64", ("base64-helpers-boundary-sizes",)),
           ("_base64_to_bytes", ("base64-helpers-boundary-sizes",)),
-          ("post-init", ("post-init-idempotent",)),
+          ("__post_init__/ensures", ("post-init-idempotent",)), ("post-init", ("post-init-idempotent",)),
           ("keys-are-str", ("xls-workbook-rows", "marker-slots")),
           ("dict-keys", ("marker-slots",)),
           ("ods_extractor", ("ods-cell-kinds",)),
